@@ -56,6 +56,11 @@ def run(ctx):
         for fk, stride in (("werr", 4), ("eofhalf", 3), ("errhalf", 3), ("errtmo", 3)):
             sub = [s for s in scns if s["fault"] == fk]
             keep = set(id(s) for s in sub[::stride]) | set(id(s) for s in sub if s["op"].endswith(".stale") or s["k"] == 0)
+            if fk == "werr":
+                # a write error shows at the first write behind the loss point: every position at which the client writes (the input
+                # of an exchange, the return once the echo is complete) is kept - each of those writes has an error path of its own
+                wp = {o["name"]: faultlib.writepoints(o) for o in ops}
+                keep |= set(id(s) for s in sub if s["k"] in wp[s["op"]])
             scns = [s for s in scns if s["fault"] != fk or id(s) in keep]
     results, died = faultlib.run_batches(ctx, scns, "C06", workers=12)
     tried = {}
